@@ -353,7 +353,7 @@ PROPS = {
         "ties": PY_TIES,
         "suites": [
             {"kind": "py", "suite": "py-ops", "quick": {"cases": 400, "len": 80}, "thorough": {"cases": 3000, "len": 120}},
-            {"kind": "py", "suite": "py-exh", "quick": {"cases": 648, "len": 3}, "thorough": {"cases": 24000, "len": 5}},
+            {"kind": "py", "suite": "py-exh", "quick": {"cases": 648 + 4000, "len": 3}, "thorough": {"cases": 24000 + 40000, "len": 5}},
         ],
         "nontrivial": "a case is non-trivial when the tree grew beyond a single leaf and at least one deletion succeeded; the independent structural walk (incl. chain = leaves in order) runs after every mutation and the full structural dump is compared with the model; py-exh enumerates every set/del history of the given depth over 3 keys in the middle of a multi-leaf tree at capacities 4, 5, 6; from_sorted_items cases compare contents and shape with an incremental build; distinct = distinct op-line sequences",
         "trusted_extra": ["that from_sorted_items produces the same SHAPE as the incremental build (beyond the property: same contents + invariants, which are theorems) is checked by the harness only"],
